@@ -19,7 +19,8 @@ import (
 func (m *Model) RunDotKeywords(s *Sink, rule string) {
 	pm := m.extractPratt()
 	h := pm.infix["DOT"]
-	kws, okK := m.globalStringIntMap("token", "keywords")
+	kws, whyK := m.keywordSet()
+	okK := whyK == ""
 	parT, tokT := m.namedType("parser", "Parser"), m.namedType("token", "Token")
 	nt := m.Method("lexer", "Lexer", "NextToken")
 	newErr := m.parserNewError()
@@ -140,13 +141,9 @@ func (m *Model) RunDotKeywords(s *Sink, rule string) {
 // "null", and `row.null` does not parse. The language has four keywords — true, false, nil, in —, and the table holds
 // exactly those (C01 and C02 speak of true, false and nil; C03 of `in`).
 func (m *Model) RunKeywordTable(s *Sink, rule string) {
-	kws, ok := m.globalStringIntMap("token", "keywords")
-	if !ok || len(kws) == 0 {
-		s.Undecided(rule, "token.keywords", "-", "the keyword table was not found")
-		return
-	}
-	if w := m.globalMapWritten("token", "keywords"); w != "" {
-		s.Violation(rule, "token.keywords|fixed", "-", "the keyword table is written at run time (%s): which names are identifiers depends on what ran before", w)
+	kws, why := m.keywordSet()
+	if why != "" {
+		s.Undecided(rule, "token.keywords", "-", "the keywords of the language could not be read off (%s)", why)
 		return
 	}
 	spec := map[string]bool{"true": true, "false": true, "nil": true, "in": true}
@@ -172,4 +169,65 @@ func (m *Model) RunKeywordTable(s *Sink, rule string) {
 	default:
 		s.OK(rule, key, "-", "the table holds exactly the four keywords and only the package initialiser writes it")
 	}
+}
+
+// keywordSet: the words that are not identifiers, with their token types — the keyword table of package token, or, when
+// the lookup is written as a switch, the string constants LookupIdent compares its argument with, each confirmed by
+// evaluating LookupIdent on it (a word for which it answers IDENT is not a keyword).
+func (m *Model) keywordSet() (map[string]int64, string) {
+	if kws, ok := m.globalStringIntMap("token", "keywords"); ok && len(kws) > 0 {
+		if w := m.globalMapWritten("token", "keywords"); w != "" {
+			return nil, "the keyword table is written at run time (" + w + ")"
+		}
+		return kws, ""
+	}
+	li := m.PkgFunc("token", "LookupIdent")
+	pm := m.extractPratt()
+	if li == nil || len(li.Params) != 1 || !isStringT(li.Params[0].Type()) {
+		return nil, "neither a keyword table nor token.LookupIdent(word) was found"
+	}
+	cands := map[string]bool{}
+	for _, b := range li.Blocks {
+		for _, in := range b.Instrs {
+			bo, ok := in.(*ssa.BinOp)
+			if !ok {
+				continue
+			}
+			for _, pr := range [][2]ssa.Value{{bo.X, bo.Y}, {bo.Y, bo.X}} {
+				if pr[0] == ssa.Value(li.Params[0]) {
+					if w, isK := constOfValue(pr[1]); isK {
+						cands[w] = true
+					}
+				}
+			}
+		}
+	}
+	out := map[string]int64{}
+	for w := range cands {
+		ip := &Interp{m: m, useGlobals: true}
+		res, ok := ip.Run(li, []any{constant.MakeString(w)})
+		k, isK := res.(constant.Value)
+		if !ok || !isK || ip.stuck != "" {
+			return nil, "token.LookupIdent could not be evaluated on " + w
+		}
+		if v, _ := constant.Int64Val(constant.ToInt(k)); v != pm.tokVal["IDENT"] {
+			out[w] = v
+		}
+	}
+	// a word the lookup does not compare with is an identifier: checked on a sample
+	for _, w := range []string{"name", "x", "null", "loop"} {
+		ip := &Interp{m: m, useGlobals: true}
+		res, ok := ip.Run(li, []any{constant.MakeString(w)})
+		k, isK := res.(constant.Value)
+		if !ok || !isK || ip.stuck != "" {
+			return nil, "token.LookupIdent could not be evaluated on " + w
+		}
+		if v, _ := constant.Int64Val(constant.ToInt(k)); v != pm.tokVal["IDENT"] && !cands[w] {
+			return nil, "token.LookupIdent answers a keyword for the word " + w + " without comparing its argument with it"
+		}
+	}
+	if len(out) == 0 {
+		return nil, "token.LookupIdent knows no keyword"
+	}
+	return out, ""
 }
